@@ -895,8 +895,9 @@ def build_case(rng, shape=None):
             if have_opt and rng.random() < 0.8:
                 t = 1
             else:
-                have_opt = True
-                sect = 3
+                if rng.random() < 0.9:
+                    have_opt = True
+                    sect = 3      # where an OPT RR belongs; a few stay in the section drawn above
                 owner = b""
                 cls = 1
         ttl = rng.choice([0, 1, 300, 0x7FFFFFFF, 0xFFFFFFFF]) if t != 41 else 0
@@ -912,7 +913,9 @@ def build_case(rng, shape=None):
                 v = build_value(rng, key, names, big=shape.startswith("big"))
             fields.append("%d=%s" % (key, v))
         units.append(",".join(["r", str(sect), owner.hex(), str(t), str(cls), str(ttl)] + fields))
-    rcode = rng.choice([0, 0, 0, 3, 16, 23]) if have_opt else rng.choice([0, 0, 3, 5])
+    # an RCODE above 15 needs an OPT RR in the additional section (the writer falls back to SERVFAIL);
+    # a few records ask for it without one
+    rcode = rng.choice([0, 0, 0, 3, 16, 23]) if (have_opt or rng.random() < 0.04) else rng.choice([0, 0, 3, 5])
     head = "b:%d:%d:%d:%d" % (rng.randrange(65536), rng.choice([0, 1, 8, 9, 25, 127]), rng.choice([0, 0, 0, 1, 2, 4, 5]), rcode)
     return head + "|" + ";".join(units)
 
